@@ -1,7 +1,7 @@
 (* Props/C18.v — the property theorems for C18 (numbers survive conversion between text and arrays).
    Only statements, `exact <lemma>` and Print Assumptions live here. *)
 From Coq Require Import ZArith List Bool String.
-From BNP Require Import Base.Prims Model.C18 Proofs.C18_power Proofs.C18_int Proofs.C18_lists Proofs.C18_float.
+From BNP Require Import Base.Prims Model.C18 Proofs.C18_power Proofs.C18_int Proofs.C18_lists Proofs.C18_float Gen.C18 Bridge.C18.
 Import ListNotations.
 Open Scope Z_scope.
 
@@ -147,6 +147,44 @@ Proof.
   - split; vm_compute; reflexivity.
 Qed.
 Print Assumptions C18_float_pinned_plus_refuted.
+
+(* Source tie: the arithmetic regenerated on this run from /repo/bionumpy/io/strops.py and io/file_buffers.py
+   (Gen/C18.v, written by translate/run.py through translate/gen_c18.py) is the arithmetic the model functions are
+   written in (the named kernels m_* of Model/C18.v, width_exact, pow10_u64): the magnitude, row length and digit
+   of ints_to_strings; the fill values and both scatter bumps of _build_power_array; power, summand and sign of
+   str_to_int (ragged path) and the power of column j of the digit matrix; digits-after-the-point, sign and
+   denominator of the decimal float parser; where the scientific parser cuts mantissa and exponent; the row
+   length of int_lists_to_strings and the joined length; window index, number of fill cells and row start of
+   move_intervals_to_digit_array. *)
+Theorem C18_source_tie :
+  (forall n p, gen_its_magnitude n = Z.abs n
+               /\ gen_its_length n = width_exact n + b2z (n <? 0)
+               /\ (0 <= p <= 19 -> gen_its_digit n p = m_digit (Z.abs n) (pow10_u64 p)))
+  /\ (gen_pa_fill = m_fill /\ gen_pa_dot_fill = m_dot_fill /\ gen_pa_dot_offset = m_dot_offset
+      /\ forall l o, gen_pa_bump_first l o = m_bump l o /\ gen_pa_bump_rest l o = m_bump l o)
+  /\ (forall neg d p w j, gen_s2i_power p = m_pow10 p /\ gen_s2i_term d p = d * p
+                          /\ gen_s2i_signed neg d = m_signed neg d
+                          /\ gen_s2i_matrix_power w j = m_pow10 (w - 1 - j))
+  /\ (forall neg b l c, gen_dec_frac_digits l c = m_frac_digits l c
+                        /\ gen_dec_signed neg b = (if neg then - b else b)
+                        /\ gen_dec_den l = m_dec_den l
+                        /\ gen_sci_mant_end c = m_sci_mant_end c /\ gen_sci_exp_start c = m_sci_exp_start c)
+  /\ (forall s n, gen_ilts_row_len s n = m_row_len s n /\ gen_join_len n = m_join_len n)
+  /\ (forall s e w j, gen_mida_index s e w j = m_window_index e w j
+                      /\ gen_mida_n_fill s e w = m_n_fill w (e - s)
+                      /\ gen_mida_fill_start j s w = m_row_start j w).
+Proof.
+  exact (conj (fun n p => conj (b_its_magnitude n) (conj (b_its_length n) (b_its_digit n p)))
+        (conj (conj b_pa_fill (conj b_pa_dot_fill (conj b_pa_dot_offset
+                 (fun l o => conj (b_pa_bump_first l o) (b_pa_bump_rest l o)))))
+        (conj (fun neg d p w j => conj (b_s2i_power p) (conj (b_s2i_term d p)
+                 (conj (b_s2i_signed neg d) (b_s2i_matrix_power w j))))
+        (conj (fun neg b l c => conj (b_dec_frac_digits l c) (conj (b_dec_signed neg b) (conj (b_dec_den l)
+                 (conj (b_sci_mant_end c) (b_sci_exp_start c)))))
+        (conj (fun s n => conj (b_ilts_row_len s n) (b_join_len n))
+              (fun s e w j => conj (b_mida_index s e w j) (conj (b_mida_n_fill s e w) (b_mida_fill_start j s w)))))))).
+Qed.
+Print Assumptions C18_source_tie.
 
 (* non-vacuity: concrete batches meet the hypotheses and the executable model returns the expected texts / values *)
 Example C18_nonvacuous :
